@@ -120,7 +120,14 @@ func DropChunks(n int) [][]int {
 	}
 	// remove everything first (the largest step)
 	out = append(out, []int{})
-	for chunk := n / 2; chunk >= 1; chunk /= 2 {
+	// Long lists are first cut in coarse chunks only (at most ~64 candidates per level);
+	// finer cuts become available as the list gets shorter. Without this bound a list of
+	// thousands of steps would yield tens of thousands of candidate copies at once.
+	minChunk := 1
+	if n > 64 {
+		minChunk = n / 32
+	}
+	for chunk := n / 2; chunk >= minChunk; chunk /= 2 {
 		for start := 0; start < n; start += chunk {
 			end := start + chunk
 			if end > n {
